@@ -28,7 +28,9 @@ func main() {
 	}
 	defer g.Kill()
 	cr := gw.Creds{Access: cfg.Access, Secret: cfg.Secret}
+	upid := ""
 	for _, a := range flag.Args() {
+		a = strings.ReplaceAll(a, "{upid}", upid)
 		f := strings.Fields(a)
 		req := gw.Req{Method: f[0], Auth: "header", Creds: cr}
 		req.Path = f[1]
@@ -51,6 +53,10 @@ func main() {
 			}
 		}
 		rsp := gw.Do(g.Addr(), req)
+		if i := strings.Index(string(rsp.Body), "<UploadId>"); i >= 0 {
+			upid = string(rsp.Body)[i+10:]
+			upid = upid[:strings.Index(upid, "<")]
+		}
 		b := string(rsp.Body)
 		if len(b) > 300 {
 			b = b[:300]
